@@ -1,37 +1,79 @@
+// Command rjverif decides the properties C01..C20 of WillAbides/rjson by static analysis of /repo's
+// current source. Usage: rjverif check <id> [--tier quick|thorough]
 package main
 
 import (
 	"fmt"
 	"os"
+	"sort"
 
 	"rjverif/internal/core"
-	"rjverif/internal/machine"
+	"rjverif/internal/props"
 )
 
 func main() {
+	if len(os.Args) < 2 {
+		usage()
+	}
+	switch os.Args[1] {
+	case "check":
+		if len(os.Args) < 3 {
+			usage()
+		}
+		id := os.Args[2]
+		tier := os.Getenv("VERIF_TIER")
+		for i := 3; i < len(os.Args); i++ {
+			if os.Args[i] == "--tier" && i+1 < len(os.Args) {
+				tier = os.Args[i+1]
+			}
+		}
+		if tier != "thorough" {
+			tier = "quick"
+		}
+		os.Exit(runCheck(id, tier))
+	case "list":
+		var ids []string
+		for id := range props.Registry {
+			ids = append(ids, id)
+		}
+		sort.Strings(ids)
+		for _, id := range ids {
+			fmt.Println(id, props.Registry[id].Level)
+		}
+	case "debug":
+		debug(os.Args[2:])
+	default:
+		usage()
+	}
+}
+
+func usage() {
+	fmt.Fprintln(os.Stderr, "usage: rjverif check <id> [--tier quick|thorough] | list | debug ...")
+	os.Exit(2)
+}
+
+func runCheck(id, tier string) (code int) {
+	p, ok := props.Registry[id]
+	if !ok {
+		fmt.Printf("unknown property %s\n", id)
+		return 2
+	}
+	r := core.NewResult(id, p.Level, tier)
+	defer func() {
+		if rec := recover(); rec != nil {
+			// a crash of the analyser is a failed check, never a pass
+			rs := r.Rule("internal", "the analyser itself must not fail")
+			r.Undecided(rs, "panic", "-", fmt.Sprint("analyser panic: ", rec))
+			code = r.Finish()
+		}
+	}()
 	w, err := core.Load(core.RepoDir(), "", "")
 	if err != nil {
-		fmt.Println(err)
-		os.Exit(2)
+		rs := r.Rule("load", "the two library packages load and type-check from /repo's working tree")
+		r.Undecided(rs, "load", "-", err.Error())
+		return r.Finish()
 	}
-	ms := machine.ExtractAll(w)
-	for _, m := range ms {
-		fmt.Printf("%s: states=%d edges=%d handlers=%d fcalls=%d frets=%d splices=%d unesc=%d start=%d returns=%s problems=%d\n",
-			m.Name, len(m.LTS.States), m.LTS.NumEdges(), len(m.Handlers), len(m.FCalls), len(m.FRets), len(m.Splices), len(m.Unescs), m.LTS.Start, m.Returns, len(m.Problems))
-		for i, p := range m.Problems {
-			if i < 10 {
-				fmt.Printf("   PROBLEM %s %s: %s\n", p.Key, w.Pos(p.Pos), p.Msg)
-			}
-		}
-		if err := m.LTS.CheckTotal(); err != nil {
-			fmt.Println("   ", err)
-		}
-	}
-	if len(os.Args) > 1 {
-		for _, m := range ms {
-			if m.Name == os.Args[1] {
-				fmt.Print(m.LTS.Dump())
-			}
-		}
-	}
+	x := props.NewCtx(w, tier)
+	p.Run(x, r)
+	return r.Finish()
 }
